@@ -3,8 +3,10 @@ package scen
 import (
 	"bytes"
 	"fmt"
+	"os"
 	"path/filepath"
 	"sort"
+	"strings"
 
 	"bsim/core"
 
@@ -27,6 +29,15 @@ func openKVStore(cfg KVCfg, dir string) (store.KVStore, store.MergeOperator, *mo
 	case "goleveldb":
 		kcfg["path"] = filepath.Join(dir, "kv")
 		kcfg["create_if_missing"] = true
+	case "moss-over-gtreap", "moss-over-mossStore":
+		// moss in front of a lower-level store: a persister goroutine of moss hands batches over to it (lower.go)
+		name = "moss"
+		kcfg["mossLowerLevelStoreName"] = strings.TrimPrefix(cfg.Store, "moss-over-")
+		kcfg["mossLowerLevelMaxBatchSize"] = float64(cfg.LLBatch)
+		if cfg.Store == "moss-over-mossStore" {
+			kcfg["path"] = filepath.Join(dir, "kv")
+			_ = os.MkdirAll(filepath.Join(dir, "kv"), 0o755)
+		}
 	case "metrics-gtreap":
 		name = "metrics"
 		kcfg["kvStoreName_actual"] = "gtreap"
@@ -37,7 +48,7 @@ func openKVStore(cfg KVCfg, dir string) (store.KVStore, store.MergeOperator, *mo
 		kcfg["initialMmapSize"] = 64 << 20
 	}
 	var gate *mossGate
-	if cfg.Store == "moss" && cfg.MossGate {
+	if name == "moss" && cfg.MossGate {
 		gate = newMossGate()
 		kcfg["mossCollectionOptionsName"] = gate.name
 	}
